@@ -15,7 +15,7 @@ from . import core
 from .core import AnalysisError
 
 VERIF_DIR = os.path.dirname(os.path.dirname(os.path.abspath(__file__)))
-EVIDENCE_DIR = os.path.join(VERIF_DIR, "evidence")
+EVIDENCE_DIR = os.environ.get("VSA_EVIDENCE_DIR") or os.path.join(VERIF_DIR, "evidence")   # override: self-test runs on scratch copies
 REPLAY_DIR = os.path.join(EVIDENCE_DIR, "replay")
 KNOWN_FILE = os.path.join(VERIF_DIR, "known_findings.json")
 
